@@ -407,7 +407,7 @@ def run(ctx):
     # ---- scenarios ---------------------------------------------------------------------------------
     defs = []
     GR = [([300.0 + 100.0 * k for k in range(6)], [0.0 + 10.0 * j for j in range(7)]),
-          ([0.0 + 250.0 * k for k in range(5)], [5.0 + 2.5 * j for j in range(9)]),
+          ([0.0 + 250.0 * k for k in range(5)], [5.0 + 0.125 * j for j in range(9)]),      # labels need a third decimal
           ([10.5 + 12.5 * k for k in range(8)], [1.0 * j for j in range(5)]),
           ([273.0 + 1.0 * k for k in range(4)], [0.0 + 0.5 * j for j in range(4)]),
           ([100.0 + 400.0 * k for k in range(7)], [20.0 + 20.0 * j for j in range(6)])]
